@@ -3,6 +3,7 @@
 package verifharness
 
 import (
+	"reflect"
 	"fmt"
 	"math/rand"
 	"strings"
@@ -182,6 +183,11 @@ func (s *hstate) exec(o hop) string {
 			return s.push(t.OptionTy(int(sel)), el)
 		case "copy":
 			c, err := vw.Copy()
+			// every other copy goes through the generic BackedView.Copy of the embedded base
+			// (a fresh view of the same backing without a hook): the same thing for the model
+			if bv := backedBase(vw); bv != nil && len(s.views)%2 == 1 {
+				c, err = bv.Copy()
+			}
 			if err != nil {
 				return "ERR"
 			}
@@ -697,4 +703,18 @@ func genHistory(hg *histGen, t *Ty, v *Val, route string, length int, h tree.Has
 		sb.WriteString("snaps=bad")
 	}
 	return ops, sb.String()
+}
+
+// backedBase returns the embedded *view.BackedView of a tree-backed view, if any.
+func backedBase(vw view.View) *view.BackedView {
+	rv := reflect.ValueOf(vw)
+	if rv.Kind() != reflect.Ptr || rv.Elem().Kind() != reflect.Struct {
+		return nil
+	}
+	f := rv.Elem().FieldByName("BackedView")
+	if !f.IsValid() || !f.CanAddr() {
+		return nil
+	}
+	bv, _ := f.Addr().Interface().(*view.BackedView)
+	return bv
 }
